@@ -398,6 +398,11 @@ def checkC10 (ct : ClassTable) (s : Spec) (t : V) (obs : Obs) : Bool :=
   | some e => obs == .ctor e.cls
   | none => let d := denote ct s t; obsSat d.1 d.2 obs
 
+/-- class rows of the user classes a case declares (`class K1(K0)`), prepended to the table -/
+def worldRows (ct : ClassTable) : List (String × String) → ClassTable
+  | [] => ct
+  | (k, base) :: r => worldRows ((k, k :: ct.mro base) :: ct) r
+
 /-! ### well-formedness of the extracted facts -/
 
 def expectedBoolOps : OpTable :=
@@ -469,6 +474,26 @@ def progWF : List Step → Nat → Bool
   | .bind e :: rest, n => e.uses.all (· < n) && progWF rest (n + 1)
   | .eval i _ :: rest, n => decide (i < n) && progWF rest n
 
+
+/-- Markers compared by identity whose copies are *other* objects in the pinned glom:
+    * `T`: `Check.glomit` tests `self.spec is not T` only to skip a `glom(target, T)` that would
+      return the target anyway — a copy of `T` takes the other branch with the same result;
+    * `M`: `_MExpr.glomit` resolves its operands with `lhs is M` / `rhs is M`, and `_MType` defines
+      no `__copy__` / `__deepcopy__` / `__reduce__`: in a deep copy of `M > 3` the operand is a
+      second `_MType` instance, `<_MType> > 3` builds a (truthy) `_MExpr`, and every target
+      passes.  A defect of the pinned glom (reported; the harness keeps deep copies of M
+      operands out of the correspondence behind `GATE_DEEPCOPY_M`); the model has no term for
+      "an `_MType` that is not `M`", so `copySpec` leaves comparison operands as they are. -/
+def identityExempt : List String := ["M", "T"]
+
+/-- **copies** (facts): the markers the matching code recognises by identity survive `copy.copy`,
+    `copy.deepcopy` and a pickle round trip as the very same object — `_MISSING` ("no default
+    given" in Match / And / Or / Switch / Optional) and `RAISE` (Check) in particular; the only
+    markers that do not are the two of `identityExempt`. -/
+def markersOK (ids : List (String × String × Bool)) : Bool :=
+  ["copy", "deepcopy", "pickle"].all (fun how =>
+    markerKept ids "_MISSING" how && markerKept ids "RAISE" how) &&
+  ids.all (fun r => r.2.2 || identityExempt.contains r.1)
 
 def classOK (env : Env) (o : Origin) (c : String) : Bool :=
   env.exc.isSub c "GlomError" &&
